@@ -153,7 +153,8 @@ def unmarshal_contract(st, fields, opt):
     if um in ("write", "data"):
         # string data: uint32 length (already a field) followed by that many bytes, which Data aliases
         wf.append("int64(be32(b, %s)) <= int64(len(b) - (%s))" % (" + ".join([str(off - 4)] + offs), O()))
-        dec.append("len(p.Data) == int(p.Length) && p.Data == b[%s:%s + int(p.Length)]" % (O(), O()))
+        dec.append("len(p.Data) == int(p.Length) && p.Data == b[%s:%s + int(p.Length)] && len(b) >= %s + int(p.Length)" % (O(), O(), O()))
+        lines[1] = "//@   property C06, C08, C18"
     if um == "attrs":
         dec.append("typeis(p.Attrs, []byte) && p.Attrs.([]byte) == b[%s:]" % O())
     lines.append("//@   ensures err == nil ==> " + " && ".join(dec))
